@@ -71,16 +71,18 @@ operations (atomic add, channel send/receive) that order the write of `d`'s resu
 its read by `a` — the model-level content of "no data race". -/
 theorem hb_write_before_read (hw : WF g) (h0 : env0 ≤ cfg.c) (hr : Reachable cfg g f env0 s)
     {a j : Nat} (ha : a ≤ g.n) (hx : s.execAt a = some j) :
-    ∀ d ∈ g.deps a, ∃ i k z, s.execAt d = some i ∧ s.decAt d a = some k ∧ s.zeroAt a = some z ∧
+    ∀ d ∈ g.deps a, ∃ i k z, s.execAt d = some i ∧
+      (∃ e, (g.trig d)[e]? = some a ∧ s.decAt d e = some k) ∧ s.zeroAt a = some z ∧
       i < k ∧ k ≤ z ∧ z < j := by
   have ht := invT_reachable hw h0 hr
   intro d hd
   have hne : g.deps a ≠ [] := by intro h; rw [h] at hd; simp at hd
   obtain ⟨z, hz, hzj⟩ := ht.hbExec a j ha hx hne
-  obtain ⟨k, hk, hkz⟩ := ht.hbZero a z ha hz d hd
   have hdn : d ≤ g.n := by have := hw.deps_lt a ha d hd; omega
-  obtain ⟨i, hi', hik⟩ := ht.hbDec d a k hdn hk
-  exact ⟨i, k, z, hi', hk, hz, hik, hkz, hzj⟩
+  obtain ⟨e, he⟩ := List.mem_iff_getElem?.mp (hw.trig_complete a ha d hd)
+  obtain ⟨k, hk, hkz⟩ := ht.hbZero a z ha hz d e hdn he
+  obtain ⟨i, hi', hik⟩ := ht.hbDec d e k hdn hk
+  exact ⟨i, k, z, hi', ⟨e, he, hk⟩, hz, hik, hkz, hzj⟩
 
 /-! ## 3. the semaphore bounds the running handlers -/
 
@@ -137,7 +139,7 @@ contains at most `measure (init …)` events of the instance, whatever the envir
 theorem terminates (hw : WF g) (h0 : env0 ≤ cfg.c) {es : List Ev}
     (hrun : run cfg g f (init g env0) es = some s) :
     nonEnv es + measure g s ≤ measure g (init (R := R) g env0) :=
-  run_measure hw (inv_init env0 h0) hrun
+  run_measure hw (inv_init hw env0 h0) hrun
 
 /-- an execution that cannot be extended by an event of the instance has ended the loop -/
 theorem stuck_is_final (hw : WF g) (h0 : env0 ≤ cfg.c) (hr : Reachable cfg g f env0 s)
@@ -241,6 +243,29 @@ theorem two_runs_same_results (hw : WF g) {cfg₁ cfg₂ : Cfg} {e₁ e₂ : Nat
   intro a ha
   rw [(results_schedule_independent hw h1 hr1).2 hf1 a ha,
     (results_schedule_independent hw h2 hr2).2 hf2 a ha]
+
+/-- **the result of an action depends only on its dependency cone.** Two graphs (two
+invocations naming different sets of packages) that agree on a set `S` of actions closed
+under dependencies give every action of `S` the same result — the problems computed for a
+package do not depend on which other packages are part of the run. -/
+theorem result_depends_only_on_cone {g g' : Dag} {f : Nat → List R → Option R} (S : Nat → Prop)
+    (hS : ∀ x, S x → g.deps x = g'.deps x ∧ ∀ d ∈ g.deps x, S d) :
+    ∀ a, S a → eval g f a = eval g' f a := by
+  have key : ∀ k a, S a → evalF g f k a = evalF g' f k a := by
+    intro k
+    induction k with
+    | zero => intro a _; rfl
+    | succ k ih =>
+      intro a ha
+      simp only [evalF]
+      obtain ⟨hd, hc⟩ := hS a ha
+      unfold evalStep
+      rw [← hd]
+      have : (g.deps a).map (evalF g f k) = (g.deps a).map (evalF g' f k) :=
+        List.map_congr_left (fun d hd' => ih d (hc d hd'))
+      rw [this]
+  intro a ha
+  exact key (a + 1) a ha
 
 /-- failure is propagated along the graph and nowhere else: an action fails iff one of its
 dependencies failed or its own execution fails on its dependencies' results -/
@@ -348,11 +373,12 @@ end
 
 namespace Example
 
-/-- a diamond: 0 and 1 are leaves, 2 needs both, 3 needs 0, the root 4 needs 2 and 3 -/
+/-- a diamond with a parallel edge: 0 and 1 are leaves, 2 needs both, 3 lists 0 twice (as
+ST1023 lists `tokenfile` twice), the root 4 needs 2 and 3 -/
 def g : Dag :=
   { n := 4
-    deps := fun a => match a with | 2 => [0, 1] | 3 => [0] | 4 => [2, 3] | _ => []
-    trig := fun a => match a with | 0 => [2, 3] | 1 => [2] | 2 => [4] | 3 => [4] | _ => [] }
+    deps := fun a => match a with | 2 => [0, 1] | 3 => [0, 0] | 4 => [2, 3] | _ => []
+    trig := fun a => match a with | 0 => [2, 3, 3] | 1 => [2] | 2 => [4] | 3 => [4] | _ => [] }
 
 theorem g_wf : WF g := wf_of_wfB g (by decide)
 
@@ -365,7 +391,7 @@ def cfgAna : Cfg := { c := 1, buffered := true }
 /-- a schedule of the `Run` kind, capacity 2, two handlers at a time -/
 def sched₁ : List Ev :=
   [.recv 0, .start 0 true, .recv 1, .start 1 true, .exec 1, .exec 0, .rel 0, .dec 0 2, .rel 1,
-   .dec 1 2, .recv 2, .sent 1 2, .fin 1, .dec 0 3, .start 2 true, .recv 3, .sent 0 3, .fin 0,
+   .dec 1 2, .recv 2, .sent 1 2, .fin 1, .dec 0 3, .dec 0 3, .start 2 true, .recv 3, .sent 0 3, .fin 0,
    .exec 2, .rel 2, .start 3 true, .exec 3, .rel 3, .dec 2 4, .dec 3 4, .recv 4, .sent 3 4,
    .fin 2, .fin 3, .start 4 true, .exec 4, .rel 4, .fin 4]
 
@@ -373,7 +399,7 @@ def sched₁ : List Ev :=
 package (`env0 = 1`): everything runs inline, in another order -/
 def sched₂ : List Ev :=
   [.recv 1, .start 1 false, .exec 1, .dec 1 2, .fin 1, .recv 0, .start 0 false, .exec 0, .dec 0 2,
-   .sent 0 2, .dec 0 3, .sent 0 3, .fin 0, .recv 3, .start 3 false, .exec 3, .dec 3 4, .fin 3,
+   .sent 0 2, .dec 0 3, .dec 0 3, .sent 0 3, .fin 0, .recv 3, .start 3 false, .exec 3, .dec 3 4, .fin 3,
    .recv 2, .start 2 false, .exec 2, .dec 2 4, .sent 2 4, .fin 2, .recv 4, .start 4 false,
    .exec 4, .fin 4]
 
@@ -404,10 +430,10 @@ example : ∃ s, Reachable cfgRun g f 0 s ∧ s.final g := by
 
 example : ∃ s : State Nat, Reachable cfgRun g f 0 s ∧ ¬ s.final g ∧ s.phase 2 ≠ .idle ∧
     s.execAt 2 ≠ none := by
-  have h : ((run cfgRun g f (init g 0) (sched₁.take 19)).map
+  have h : ((run cfgRun g f (init g 0) (sched₁.take 20)).map
       fun s => (!s.finalB g && decide (s.phase 2 ≠ .idle) && (s.execAt 2).isSome)) = some true := by
     decide
-  cases he : run cfgRun g f (init g 0) (sched₁.take 19) with
+  cases he : run cfgRun g f (init g 0) (sched₁.take 20) with
   | none => rw [he] at h; cases h
   | some s =>
     rw [he] at h
@@ -430,6 +456,18 @@ example : ∃ s : State Nat, Reachable cfgAna g f 1 s ∧ s.phase 1 = .running f
 
 /-- `failed_iff` on the example: 2 fails because its dependency 1 does; 3 does not fail -/
 example : eval g f 2 = none ∧ eval g f 1 = none ∧ eval g f 3 = some 3 := by decide
+
+/-- `result_depends_only_on_cone`: a second invocation that does not contain the packages
+2 and 4 (3 is the root there) — the cone `{0, 3}` is untouched, so is the result of 3 -/
+def g' : Dag :=
+  { n := 3
+    deps := fun a => match a with | 3 => [0, 0] | _ => []
+    trig := fun a => match a with | 0 => [3, 3] | _ => [] }
+
+example : (∀ x, (x = 0 ∨ x = 3) → g.deps x = g'.deps x ∧ ∀ d ∈ g.deps x, (d = 0 ∨ d = 3)) ∧
+    eval g f 3 = eval g' f 3 := by
+  refine ⟨?_, by decide⟩
+  rintro x (rfl | rfl) <;> simp [g, g']
 
 /-- the graph hypothesis is not vacuous in the other direction either: a schedule that
 starts 2 before 1 has decremented it is rejected by the model -/
